@@ -53,3 +53,29 @@ Theorem C06_flatten_total : forall d t, tree_okb t = true ->
   exists n, forall k, (exists t', flatten_and_balance (n + k) d t = Ok t') \/ flatten_and_balance (n + k) d t = Err EAssert.
 Proof. exact flatten_total. Qed.
 Print Assumptions C06_flatten_total.
+
+(* ---- waveform-merging rewrites.  [same_play a b] (Spec.v): equal total duration and at every time t >= 0 the same atom
+   at the same local time / the same constant values.  [tree_ok1b]: counts >= 1, every leaf has a waveform of positive
+   duration, inner nodes carry none. *)
+
+Theorem C06_spec_oracle_sound : forall a b, Forall (fun p => (0 <= pdur p)%Q) a -> Forall (fun p => (0 <= pdur p)%Q) b ->
+  pieces_equivb a b = true -> same_play a b.
+Proof. exact oracle_sound. Qed.
+Print Assumptions C06_spec_oracle_sound.
+
+Theorem C06_to_waveform_preserves : forall t x, tree_ok1b t = true -> to_waveform t = Ok x ->
+  same_play (wf_pieces x) (pieces t) /\ (wf_dur x == duration t)%Q.
+Proof. exact to_waveform_preserves. Qed.
+Print Assumptions C06_to_waveform_preserves.
+
+Theorem C06_make_compatible_preserves_post : forall min_len quantum sr t t', tree_ok1b t = true ->
+  make_compatible min_len quantum sr t = Ok t' ->
+  same_play (pieces t') (pieces t) /\ (duration t' == duration t)%Q
+  /\ ((0 < quantum)%Z -> (0 < sr)%Q -> leaves_ok min_len quantum sr t' = true).
+Proof. exact make_compatible_preserves. Qed.
+Print Assumptions C06_make_compatible_preserves_post.
+
+Theorem C06_roll_constant_waveforms_preserves : forall mq q sr t t', (0 < q)%Z -> (0 < sr)%Q -> tree_ok1b t = true ->
+  roll_constant_waveforms mq q sr t = Ok t' -> same_play (pieces t') (pieces t) /\ (duration t' == duration t)%Q.
+Proof. exact roll_preserves. Qed.
+Print Assumptions C06_roll_constant_waveforms_preserves.
